@@ -70,6 +70,27 @@ def check_case(case, ex):
             if any(len(lf.find_object(other, ob)) == 1 for lf in dec.lfs):
                 out.append(C.V('C02.record_type_wrong', dict(fpx, kind='iflr', opens_with=other), obj=list(ob), rec=e.detail.get('rec')))
                 break
+    # one transient I/O event (a failing or SHORT write at a seeded write event): should write() still return normally, what is in
+    # the file is what the segmenter was given
+    tr = case['params'].get('transient')
+    if tr and tr[2] in ('write_fail', 'short_write'):
+        evs = [e for e in (st.get('io') or []) if e['k'] == 'write' and e['n'] > 1]
+        if evs:
+            e = evs[int(tr[0] * len(evs)) % len(evs)]
+            flt = {'kind': tr[2], 'at_event': e['i'], 'errno': 28, 'partial': 1 + int(tr[1] * (e['n'] - 1)) % (e['n'] - 1)}
+            sc3, res3 = C.run(case, ex, [C.wop(fid, output_chunk_size=ocs, faults=[flt])], stats)
+            st3 = C.last_write(res3)
+            if st3 is not None and tr[2] in (st3.get('faults_fired') or []):
+                C.bump(stats['faults'], tr[2])
+                if st3['out'] == 'ok' and st3.get('file') is not None and st3.get('lr_tap') is not None:
+                    fr3 = rp66.parse_framing(st3['file'])
+                    recs3, errs3 = rp66.reassemble(fr3)
+                    for e3 in errs3[:1]:
+                        out.append(C.V('C02.' + ('bracketing' if 'bracketing' in e3.rule else 'type_or_flag_varies'),
+                                       dict(fpx, after_transient=tr[2]), **e3.detail))
+                    if not errs3:
+                        _compare(out, [r.key() for r in recs3], [(a, b, c) for a, b, c in st3['lr_tap']],
+                                 dict(fpx, after_transient=tr[2]), 'vs_tap', mrl)
     cap = mrl - 8
     multi = [r for r in recs if r.nsegs > 1]
     nfl = C.n_flushes(st.get('io'))
